@@ -326,4 +326,184 @@ theorem percentile_bounds (d : List Rat) (hd : d ≠ []) (q : Rat) (h0 : 0 ≤ q
   unfold sortR at c1' c2'
   constructor <;> grind
 
+/-! ## permutations, monotonicity in `q` -/
+
+theorem perm_insertBy {β : Type} (le : β → β → Bool) (a : β) : ∀ l : List β,
+    (insertBy le a l).Perm (a :: l) := by
+  intro l
+  induction l with
+  | nil => exact List.Perm.refl _
+  | cons b t ih =>
+    simp only [insertBy]
+    split
+    · exact List.Perm.refl _
+    · exact ((List.Perm.cons b ih).trans (List.Perm.swap a b t))
+
+theorem perm_isort {β : Type} (le : β → β → Bool) : ∀ l : List β, (isort le l).Perm l := by
+  intro l
+  induction l with
+  | nil => exact List.Perm.refl _
+  | cons a t ih => exact (perm_insertBy le a _).trans (List.Perm.cons a ih)
+
+/-- sorting forgets the order of the events -/
+theorem sortR_perm (d d' : List Rat) (h : d.Perm d') : sortR d = sortR d' := by
+  have hp : (sortR d).Perm (sortR d') :=
+    ((perm_isort _ d).trans h).trans (perm_isort _ d').symm
+  exact List.Perm.eq_of_pairwise (le := fun a b : Rat => a ≤ b)
+    (fun a b _ _ hab hba => Rat.le_antisymm hab hba) (sorted_sortR d) (sorted_sortR d') hp
+
+theorem floor_toNat_mono (h h' : Rat) (hh : h ≤ h') : h.floor.toNat ≤ h'.floor.toNat := by
+  have : h.floor ≤ h'.floor := Rat.le_floor_iff.mpr (Rat.le_trans (Rat.floor_le h) hh)
+  exact Int.toNat_le_toNat this
+
+/-- the linear interpolant between the order statistics of a sorted list -/
+def interp (s : List Rat) (h : Rat) : Rat :=
+  s.getD h.floor.toNat 0 + (h - (h.floor.toNat : Rat)) *
+    (s.getD (min (h.floor.toNat + 1) (s.length - 1)) 0 - s.getD h.floor.toNat 0)
+
+theorem interp_mono (s : List Rat) (hs : s.Pairwise (· ≤ ·)) (h h' : Rat) (h0 : 0 ≤ h)
+    (hh : h ≤ h') (hn : h' ≤ (s.length : Rat) - 1) : interp s h ≤ interp s h' := by
+  have h0' : 0 ≤ h' := Rat.le_trans h0 hh
+  obtain ⟨f1, f2⟩ := floor_facts h h0
+  obtain ⟨g1, g2⟩ := floor_facts h' h0'
+  have hlo := floor_toNat_mono h h' hh
+  unfold interp
+  generalize h.floor.toNat = lo at f1 f2 hlo ⊢
+  generalize h'.floor.toNat = lo' at g1 g2 hlo ⊢
+  have hlo'n : lo' + 1 ≤ s.length := by
+    have : ((lo' + 1 : Nat) : Rat) ≤ ((s.length : Nat) : Rat) := by
+      simp only [Rat.natCast_add]; simp; grind
+    exact Rat.natCast_le_natCast.mp this
+  have i1 : lo < s.length := by omega
+  have i2 : min (lo + 1) (s.length - 1) < s.length := by omega
+  have i3 : lo' < s.length := by omega
+  have i4 : min (lo' + 1) (s.length - 1) < s.length := by omega
+  rw [← List.getElem_eq_getD (h := i1) 0, ← List.getElem_eq_getD (h := i2) 0,
+    ← List.getElem_eq_getD (h := i3) 0, ← List.getElem_eq_getD (h := i4) 0]
+  have ab : s[lo] ≤ s[min (lo + 1) (s.length - 1)] := sorted_mono _ hs _ _ (by omega) i2
+  have ab' : s[lo'] ≤ s[min (lo' + 1) (s.length - 1)] := sorted_mono _ hs _ _ (by omega) i4
+  by_cases hc : lo = lo'
+  · subst hc
+    have e : 0 ≤ (h' - h) * (s[min (lo + 1) (s.length - 1)] - s[lo]) :=
+      Rat.mul_nonneg (by grind) (by grind)
+    grind
+  · have hlt : lo + 1 ≤ lo' := by omega
+    obtain ⟨_, u1⟩ := interp_between _ _ (h - (lo : Rat)) ab (by grind) (by grind)
+    obtain ⟨u2, _⟩ := interp_between _ _ (h' - (lo' : Rat)) ab' (by grind) (by grind)
+    have mid : s[min (lo + 1) (s.length - 1)] ≤ s[lo'] := sorted_mono _ hs _ _ (by omega) i3
+    exact Rat.le_trans u1 (Rat.le_trans mid u2)
+
+theorem percentile_eq_interp (d : List Rat) (hd : d ≠ []) (q : Rat) :
+    percentile d q = some (interp (sortR d) (q * ((d.length : Rat) - 1))) := by
+  unfold percentile interp
+  have hemp : d.isEmpty = false := by cases d <;> simp_all
+  have hlen : (sortR d).length = d.length := length_isort _ d
+  simp only [hemp, Bool.false_eq_true, if_false, hlen]
+
+/-- pairs of valid coordinates as a `filterMap` over the zipped events -/
+def goodOf : Val × Val → Option (Rat × Rat)
+  | (.fin a, .fin b) => some (a, b)
+  | _ => none
+
+theorem goodPairs_eq_filterMap : ∀ (xs ys : List Val),
+    goodPairs xs ys = (xs.zip ys).filterMap goodOf := by
+  intro xs
+  induction xs with
+  | nil => intro ys; cases ys <;> simp [goodPairs]
+  | cons x t ih =>
+    intro ys
+    cases ys with
+    | nil => cases x <;> simp [goodPairs]
+    | cons y u =>
+      cases x <;> cases y <;> simp [goodPairs, goodOf, ih, List.filterMap_cons]
+
+theorem fins_eq_filterMap : ∀ xs : List Val,
+    fins xs = xs.filterMap (fun v => match v with | .fin q => some q | _ => none) := by
+  intro xs
+  induction xs with
+  | nil => rfl
+  | cons v t ih => cases v <;> simp [fins, ih]
+
+/-- columns of two `get_statistics` requests agree on the selected events (same names, same
+availability) -/
+def AgreeFeat (m : List Bool) (a b : String × Option (List Val)) : Prop :=
+  a.1 = b.1 ∧ match a.2, b.2 with
+    | some x, some y => AgreeOn m x y
+    | none, none => True
+    | _, _ => False
+
+inductive AgreeFeats (m : List Bool) :
+    List (String × Option (List Val)) → List (String × Option (List Val)) → Prop where
+  | nil : AgreeFeats m [] []
+  | cons {a b : String × Option (List Val)} {t t' : List (String × Option (List Val))} :
+      AgreeFeat m a b → AgreeFeats m t t' → AgreeFeats m (a :: t) (b :: t')
+
+/-! ## median = 50th percentile; positions in a `flatMap` of equally long blocks -/
+
+theorem floor_eq_of (x : Rat) (z : Int) (h1 : (z : Rat) ≤ x) (h2 : x < ((z + 1 : Int) : Rat)) :
+    x.floor = z := by
+  have a : z ≤ x.floor := Rat.le_floor_iff.mpr h1
+  have b : x.floor < z + 1 := Rat.floor_lt_iff.mpr h2
+  omega
+
+theorem median_eq_percentile (d : List Rat) : median d = percentile d (1 / 2) := by
+  unfold median percentile
+  by_cases he : d.isEmpty = true
+  · simp [he]
+  · simp only [he, Bool.false_eq_true, if_false]
+    generalize sortR d = s
+    rcases Nat.mod_two_eq_zero_or_one s.length with h2 | h2
+    · -- even
+      have hne : ¬ (s.length % 2 = 1) := by omega
+      simp only [hne, if_false]
+      by_cases hk0 : s.length = 0
+      · have : s = [] := List.eq_nil_of_length_eq_zero hk0
+        subst this
+        simp
+        decide +kernel
+      · obtain ⟨j, hk⟩ : ∃ j, s.length = 2 * (j + 1) := ⟨s.length / 2 - 1, by omega⟩
+        have hfl : ((1 : Rat) / 2 * (((s.length : Nat) : Rat) - 1)).floor = ((j : Nat) : Int) := by
+          apply floor_eq_of
+          · rw [hk]; simp [Rat.natCast_mul, Rat.natCast_add, Rat.intCast_natCast]; grind
+          · rw [hk]; simp [Rat.natCast_mul, Rat.natCast_add, Rat.intCast_natCast]; grind
+        rw [hfl]
+        simp only [Int.toNat_natCast]
+        have e1 : s.length / 2 - 1 = j := by omega
+        have e2 : s.length / 2 = j + 1 := by omega
+        have e3 : min (j + 1) (s.length - 1) = j + 1 := by omega
+        rw [e1, e2, e3, hk]
+        simp [Rat.natCast_mul, Rat.natCast_add]
+        grind
+    · simp only [h2, if_true]
+      obtain ⟨k, hk⟩ : ∃ k, s.length = 2 * k + 1 := ⟨s.length / 2, by omega⟩
+      have hfl : ((1 : Rat) / 2 * (((s.length : Nat) : Rat) - 1)).floor = ((k : Nat) : Int) := by
+        apply floor_eq_of
+        · rw [hk]; simp [Rat.natCast_mul, Rat.natCast_add, Rat.intCast_natCast]; grind
+        · rw [hk]; simp [Rat.natCast_mul, Rat.natCast_add, Rat.intCast_natCast]; grind
+      rw [hfl]
+      simp only [Int.toNat_natCast]
+      have e2 : s.length / 2 = k := by omega
+      rw [e2, hk]
+      simp [Rat.natCast_mul, Rat.natCast_add]
+      grind
+theorem flatMap_const_getElem? {α β : Type} (f : α → List β) (k : Nat)
+    (hk : ∀ a, (f a).length = k) : ∀ (l : List α) (i j : Nat), j < k →
+    (l.flatMap f)[i * k + j]? = (l[i]?).bind (fun a => (f a)[j]?) := by
+  intro l
+  induction l with
+  | nil => intro i j _; simp
+  | cons a t ih =>
+    intro i j hj
+    rw [List.flatMap_cons]
+    cases i with
+    | zero =>
+      simp only [Nat.zero_mul, Nat.zero_add, List.getElem?_cons_zero, Option.bind_some]
+      exact List.getElem?_append_left (by rw [hk a]; exact hj)
+    | succ i =>
+      have hge : (f a).length ≤ (i + 1) * k + j := by
+        rw [hk a, Nat.succ_mul]; omega
+      rw [List.getElem?_append_right hge, List.getElem?_cons_succ, ← ih i j hj]
+      congr 1
+      rw [hk a, Nat.succ_mul]; omega
+
 end DclabModel.Stats
